@@ -12,23 +12,23 @@ import (
 
 // Report is what a driver prints (one JSON object on the last line of stdout).
 type Report struct {
-	Evals       int64            `json:"evals"`
-	States      int64            `json:"states"`
-	Trans       int64            `json:"trans"`
-	Validated   int64            `json:"validated"`
-	Distinct    int64            `json:"distinct"`
-	Nontrivial  int64            `json:"nontrivial"`
-	Exhaustive  bool             `json:"exhaustive"`
-	Notes       []string         `json:"notes"`
-	Hist        map[string]int64 `json:"hist"`
-	Outcomes    map[string]int64 `json:"outcomes"`
-	Samples     []any            `json:"samples"`
-	Violations  []Violation      `json:"violations"`
-	Extra       map[string]any   `json:"extra"`
-	mu          sync.Mutex
-	sampleSeen  int64
-	vioPerSig   map[string]int
-	Suppressed  map[string]int64 `json:"violations_per_signature"`
+	Evals      int64            `json:"evals"`
+	States     int64            `json:"states"`
+	Trans      int64            `json:"trans"`
+	Validated  int64            `json:"validated"`
+	Distinct   int64            `json:"distinct"`
+	Nontrivial int64            `json:"nontrivial"`
+	Exhaustive bool             `json:"exhaustive"`
+	Notes      []string         `json:"notes"`
+	Hist       map[string]int64 `json:"hist"`
+	Outcomes   map[string]int64 `json:"outcomes"`
+	Samples    []any            `json:"samples"`
+	Violations []Violation      `json:"violations"`
+	Extra      map[string]any   `json:"extra"`
+	mu         sync.Mutex
+	sampleSeen int64
+	vioPerSig  map[string]int
+	Suppressed map[string]int64 `json:"violations_per_signature"`
 }
 
 type Violation struct {
